@@ -22,5 +22,5 @@ JOBS = [
     Job("one-sided", "C12.cpp", ["HLO=2", "HHI=2"], env=E, budget_s=300, desc="on / next to a bound: no exception, one-sided first (linear) and second (quadratic) derivatives exact, function left at the requested point"),
     Job("cross-3-variables", "C12.cpp", ["HLO=4", "HHI=4"], fix="scheme=1", env=E, budget_s=400, desc="three-point scheme on a cubic in three variables, three orders of the selected variables: every cross derivative exact, function left at the requested point"),
     Job("partial-update", "C12.cpp", ["HLO=5", "HHI=5"], env=E, budget_s=200, desc="a full update, then one variable changed through setParameterValue / matchParametersValues / setParametersValues: function left at the current point, value and the updated variable's derivative are those of the current point; the other selected variable's derivative is stale (known finding)"),
-    Job("delegation", "C12.cpp", ["HLO=6", "HHI=6"], env=E, budget_s=200, spurious_possible=True, desc="derivatives of variables that were not selected come from the wrapped function"),
+    Job("delegation", "C12.cpp", ["HLO=6", "HHI=6"], env=E, budget_s=300, spurious_possible=True, desc="derivatives of variables that were not selected come from the wrapped function (uninterpreted f, df, d2f): after a selection that may replace an earlier one containing the variable (with or without an update in between), a full update, and optionally a further update of the unselected variable alone through setParameterValue / matchParametersValues / setParametersValues; the wrapped function's derivative computations are switched on again after every update and no delegated derivative is requested while they are off"),
 ]
